@@ -293,8 +293,16 @@ class Compiler:
         order = g.get("order")
         if order:
             nodes = [nodes[i] for i in order]
+        k_add = g.get("add_nodes_after")
         if g.get("explicit_edges"):
             graph = hg.Graph(nodes, name=g.get("name"), edges=self._edges(nodes, split=g.get("explicit_edges") == "split"))
+        elif isinstance(k_add, int) and 0 < k_add < len(nodes):
+            # incremental construction: the first nodes, the bindings, then add_nodes() for the rest
+            graph = hg.Graph(nodes[:k_add], name=g.get("name"))
+            if g.get("bind"):
+                graph = graph.bind(**g["bind"])
+            graph = graph.add_nodes(*nodes[k_add:])
+            g = dict(g, bind=None)
         else:
             graph = hg.Graph(nodes, name=g.get("name"))
         touch = bool(g.get("touch"))
